@@ -926,38 +926,30 @@ Lemma copy_stream_behind_server peeked accepted segs reply : local_kind accepted
 Proof. intros H. unfold copy_model. rewrite switch_behind_server. unfold type_switch. rewrite H. reflexivity. Qed.
 
 (* copy, datagram: the datagram, then one reply *)
-Lemma dgram_read_whole peeked accepted d : has_peek accepted = false ->
-  (peeked = false \/ (length d <= PEEK)%nat) -> dgram_read (server_wrap peeked accepted) d = d.
+(* however the peek wrapper hands it out, the datagram is read whole *)
+Lemma dgram_read_whole k d : dgram_read k d = d.
 Proof.
-  intros Ha Hp. unfold dgram_read, server_wrap. destruct peeked; cbn [has_peek].
-  - destruct Hp as [Hp|Hl]; [discriminate|]. apply firstn_all2, Hl.
-  - rewrite Ha. reflexivity.
+  unfold dgram_read, dgram_reads. destruct (has_peek k); cbn [concat]; rewrite app_nil_r; [apply firstn_skipn|reflexivity].
 Qed.
 
 Lemma copy_datagram_behind_server peeked accepted d reply more : local_kind accepted = AUdp ->
-  has_peek accepted = false -> (peeked = false \/ (length d <= PEEK)%nat) ->
   copy_model (server_wrap peeked accepted) [d] (reply :: more) = mkRaw 1 [d] [reply] 1.
 Proof.
-  intros H Ha Hp. unfold copy_model. rewrite switch_behind_server. unfold type_switch. rewrite H.
-  cbn [concat]. rewrite app_nil_r, (dgram_read_whole _ _ _ Ha Hp). reflexivity.
+  intros H. unfold copy_model. rewrite switch_behind_server. unfold type_switch. rewrite H.
+  cbn [concat]. rewrite app_nil_r, dgram_read_whole. reflexivity.
 Qed.
 
-(* defect of the unchanged code: behind the peek wrapper the single Read of a datagram service
-   returns at most the peeked 1024 bytes; the rest of the datagram is never forwarded *)
-Lemma datagram_cut_on_shared_port_refuted :
-  exists d, w_backend (copy_model (server_wrap true KDummyUdp) [d] [[1]%N]) <> [d].
-Proof.
-  exists (repeat 7%N 1025). intros H.
-  apply (f_equal (fun l => length (concat l))) in H. vm_compute in H. discriminate.
-Qed.
+(* regression example: a datagram longer than the server's peek, on a shared port *)
+Lemma long_datagram_on_shared_port :
+  w_backend (copy_model (server_wrap true KDummyUdp) [repeat 7%N 1025] [[1]%N]) = [repeat 7%N 1025].
+Proof. vm_compute. reflexivity. Qed.
 
 (* dns-proxy, datagram: forwarded, answered, recorded - whether or not it is a DNS message *)
 Lemma dns_datagram_behind_server peeked accepted d parses reply more : local_kind accepted = AUdp ->
-  has_peek accepted = false -> (peeked = false \/ (length d <= PEEK)%nat) ->
   dns_model (server_wrap peeked accepted) [d] parses (reply :: more) = mkRaw 1 [d] [reply] 1.
 Proof.
-  intros H Ha Hp. unfold dns_model. rewrite switch_behind_server. unfold type_switch. rewrite H.
-  cbn [concat]. rewrite app_nil_r, (dgram_read_whole _ _ _ Ha Hp). reflexivity.
+  intros H. unfold dns_model. rewrite switch_behind_server. unfold type_switch. rewrite H.
+  cbn [concat]. rewrite app_nil_r, dgram_read_whole. reflexivity.
 Qed.
 
 (* io.ReadFull over any segmentation: the first n bytes of the stream, the rest stays *)
